@@ -259,4 +259,4 @@ LEVEL_NOTE = "under construction"
 EXPLANATION = "under construction"
 ASSUMPTIONS = []
 TRUSTED = []
-BOUNDED = []
+BOUNDED = [{"name": "subcommand-trees-vs-selection-model", "script": "bounded/b17_subcommands.py"}]
